@@ -107,7 +107,7 @@ func (u *Unit) Switches(decl *ast.FuncDecl) []SwitchInfo {
 		case *ast.SwitchStmt:
 			si := SwitchInfo{Node: s}
 			if s.Tag != nil {
-				si.Tag = types.ExprString(s.Tag)
+				si.Tag = u.RefExpr(decl, types.ExprString(s.Tag))
 			}
 			for _, cc := range s.Body.List {
 				c := cc.(*ast.CaseClause)
@@ -126,9 +126,9 @@ func (u *Unit) Switches(decl *ast.FuncDecl) []SwitchInfo {
 		case *ast.TypeSwitchStmt:
 			si := SwitchInfo{Node: s, Tag: "type"}
 			if as, ok := s.Assign.(*ast.AssignStmt); ok && len(as.Rhs) == 1 {
-				si.Tag = "type:" + types.ExprString(as.Rhs[0])
+				si.Tag = "type:" + u.RefExpr(decl, types.ExprString(as.Rhs[0]))
 			} else if es, ok := s.Assign.(*ast.ExprStmt); ok {
-				si.Tag = "type:" + types.ExprString(es.X)
+				si.Tag = "type:" + u.RefExpr(decl, types.ExprString(es.X))
 			}
 			for _, cc := range s.Body.List {
 				c := cc.(*ast.CaseClause)
